@@ -3,6 +3,7 @@ set_option linter.unusedSimpArgs false
 set_option linter.unusedVariables false
 namespace Lemmas
 open Gen.Bumping Rs C11
+attribute [local congr] rs_bind_congr rs_ite_congr
 
 /- common set-up -/
 set_option hygiene false in
@@ -79,6 +80,26 @@ local macro "bump_up_fast_true" X:term : tactic => `(tactic| (
     · have h5 : (sz : Int) > -16 := by omega
       bump_up_leaf [b1, hrem, h5, hfit]))
 
+/- fast path, `size_is_const = false`: the size is always checked against the remaining capacity -/
+set_option hygiene false in
+local macro "bump_up_fast_false" X:term : tactic => `(tactic| (
+  rcases hr with ⟨h1, h2, h3, h4⟩ | ⟨h1, h2, h3⟩
+  · have hXe : $X ≤ e := hS4 e (Nat.dvd_trans ha16 he16) h1
+    by_cases hcmp : (sz : Int) > ((e - $X : Nat) : Int)
+    · have hfit : ¬ ($X + sz ≤ e) := by omega
+      bump_up_leaf [hcmp, hfit]
+    · have hfit : $X + sz ≤ e := by omega
+      have hU1 := hUd ($X + sz)
+      have hU2 := hUge ($X + sz)
+      have hU3 := hUle _ hfit
+      bump_up_leaf [hcmp, hfit]
+  · have hXs : $X = s := hXd h3
+    have hrem : as_isize (wrapping_sub e $X) = -16 := by
+      rw [hXs, h1]; exact remaining_dummy (by omega)
+    have hfit : ¬ ($X + sz ≤ e) := by omega
+    have h5 : (sz : Int) > -16 := by omega
+    bump_up_leaf [hrem, h5, hfit]))
+
 /- generic path -/
 set_option hygiene false in
 local macro "bump_up_generic" : tactic => `(tactic| (
@@ -125,7 +146,28 @@ local macro "bump_up_phase1_true" : tactic => `(tactic| (
   · simp only [b0, ↓reduceIte, Bool.false_eq_true]
     bump_up_generic))
 
-set_option trace.Meta.Tactic.simp.discharge true in
+/- the three ways of computing the block address, `size_is_const = false` -/
+set_option hygiene false in
+local macro "bump_up_phase1_false" : tactic => `(tactic| (
+  by_cases b0 : (aic && decide (a ≤ 16)) = true
+  · simp only [b0, ↓reduceIte]
+    simp only [Bool.and_eq_true, decide_eq_true_eq] at b0
+    have ha16 : a ∣ 16 := ha.dvd_of_le h16 b0.2
+    by_cases bam : a ≤ m
+    · have has : a ∣ s := Nat.dvd_trans (ha.dvd_of_le hm bam) hms
+      have hSs := upAlign_eq_self hap has
+      rw [hSs] at hS1 hS2 hS3 hS4 hSm ⊢
+      simp only [bam, decide_true, ↓reduceIte]
+      have hXd : 16 ∣ s → s = s := fun _ => rfl
+      bump_up_fast_false s
+    · simp only [bam, decide_false, ↓reduceIte, Bool.false_eq_true]
+      have hov : s + (a - 1) < 2 ^ 64 := by omega
+      simp only [up_align_unchecked_eq ha ha64 hov, ok_bind]
+      have hXd : 16 ∣ s → Spec.upAlign s a = s := fun h => upAlign_eq_self hap (Nat.dvd_trans ha16 h)
+      bump_up_fast_false (Spec.upAlign s a)
+  · simp only [b0, ↓reduceIte, Bool.false_eq_true]
+    bump_up_generic))
+
 set_option maxHeartbeats 4000000 in
 theorem bump_up_ok_true (p : BumpProps) (h : Valid true p) (hsic : p.size_is_const = true) :
     bump_up p = .ok ((Spec.bumpUp p.start p.«end» p.layout.size p.layout.align p.min_align).map
@@ -148,4 +190,20 @@ theorem bump_up_ok_true (p : BumpProps) (h : Valid true p) (hsic : p.size_is_con
     simp only [Bool.not_eq_true', Bool.not_eq_false, Bool.and_eq_true, decide_eq_true_eq] at c7
     have hmsz : m ∣ sz := Nat.dvd_trans (hm.dvd_of_le ha c7.2) (htr c7.1.2)
     bump_up_phase1_true
+set_option maxHeartbeats 4000000 in
+theorem bump_up_ok_false (p : BumpProps) (h : Valid true p) (hsic : p.size_is_const = false) :
+    bump_up p = .ok ((Spec.bumpUp p.start p.«end» p.layout.size p.layout.align p.min_align).map
+      fun r => { new_pos := r.2, ptr := r.1 }) := by
+  bump_up_setup
+  simp only at hsic
+  subst hsic
+  simp only [↓reduceIte, Bool.false_and, Bool.false_eq_true]
+  by_cases c7 : (!(aic && smoa && decide (a ≥ m))) = true
+  · simp only [c7, ↓reduceIte]
+    bump_up_phase1_false
+  · simp only [c7, ↓reduceIte, Bool.false_eq_true]
+    simp only [Bool.not_eq_true', Bool.not_eq_false, Bool.and_eq_true, decide_eq_true_eq] at c7
+    have hmsz : m ∣ sz := Nat.dvd_trans (hm.dvd_of_le ha c7.2) (htr c7.1.2)
+    bump_up_phase1_false
+
 end Lemmas
